@@ -242,14 +242,15 @@ func genC20Case(r *Rng) c20Input {
 				add("convert", r.Intn(3), r.Intn(50), r.Intn(3))
 			}
 		case 3: // token factory: create, hand over, custom metadata, mint
-			add("tf_create", r.Intn(5), r.Intn(4), 0)
-			if r.Chance(1, 2) {
-				add("tf_create", usr(), r.Intn(4), 0) // a second denom, often of the hub creator
+			add("tf_create", usr(), r.Intn(4), 0)
+			if r.Chance(2, 3) {
+				add("tf_create", usr(), r.Intn(4), 0) // a second denom, often of the same (hub) creator
 			}
 			if r.Chance(2, 3) {
-				add("tf_admin", r.Intn(5), usr(), 0)
-				if r.Chance(1, 2) {
-					add("tf_admin", r.Intn(5), usr(), 0)
+				to := usr()
+				add("tf_admin", r.Intn(5), to, 0)
+				if r.Chance(2, 3) {
+					add("tf_admin", r.Intn(5), to, 0) // another denom to the same new admin
 				}
 			}
 			if r.Chance(1, 2) {
